@@ -486,6 +486,59 @@ def r07h(ctx, rep, cr):
             rep.holds('R07h', g, 'snapshot', 'copies its containers whole')
 
 
+_SNAP_MUT = re.compile(r'::(insert|remove|push|push_back|clear|retain|entry|store|fetch_add|fetch_sub|swap|get_or_insert\w*|extend|truncate|pop)$')
+
+
+def r07i(ctx, rep, cr):
+    rep.rule('R07i', 'taking an image does not change the slab, and the image is not taken from a side store: the snapshot() of every slab '
+                     'SlabRouter::snapshot calls performs no mutating call (insert / remove / push / clear / store / fetch_* …) on a field of '
+                     'its own slab and assigns none of them. A snapshot that keeps a cache of "what it wrote last time" inside the slab '
+                     'serves stale entries for keys that were overwritten in place since — the image then holds the pre-overwrite vector, '
+                     'and a load or a rollback brings it back')
+    f = rep.require_fn('R07i', cr, SR + '::snapshot')
+    if f is None:
+        return
+    snaps = sorted({c.resolved for c in A.calls(f) if re.search(r'::snapshot$', c.resolved) and c.resolved.startswith(TS) and c.resolved in cr.fns})
+    if not rep.floor('R07i', 'slab snapshot functions called by SlabRouter::snapshot', len(snaps), 4):
+        return
+    for nm in snaps:
+        struct = re.sub(r'::<[^>]*>', '', nm.rsplit('::', 1)[0])
+        g0 = cr.fns[nm]
+        rep.analysed(g0)
+        bad = []
+        # fields of the slab that snapshot() holds an exclusive guard on (Mutex::lock / RwLock::write)
+        import lockgraph as LG
+        excl = set()
+        for g in A.with_closures(cr.fns, nm):
+            gd = A.Defs(g)
+            for gu in A.guards(g, gd):
+                if any(x.startswith(struct + '.') for x in gu.lock_fields) and re.search(r'MutexGuard|RwLockWriteGuard', gu.ty):
+                    excl |= {x.split('.')[-1] for x in gu.lock_fields if x.startswith(struct + '.')}
+        for g in A.with_closures(cr.fns, nm):
+            gd = A.Defs(g)
+            for c in A.calls(g):
+                if not (_SNAP_MUT.search(c.resolved) or _SNAP_MUT.search(c.generic)) or not c.args or c.args[0][0] == 'k':
+                    continue
+                fs, root = A.origin_fields(g, c.args[0][1][0], gd)
+                fs = A.place_fields(c.args[0][1]) + fs
+                if any(x.startswith(struct + '.') for x in fs):
+                    bad.append('%s on %s' % (c.resolved.split('::')[-1], [x for x in fs if x.startswith(struct + '.')][0].split('.')[-1]))
+                elif excl and g.name != nm and root == 1:
+                    # inside a closure the receiver is a captured variable; with an exclusive guard on a slab field held by
+                    # snapshot(), a mutation through a capture is a mutation of that field
+                    bad.append('%s through a capture, while %s is held exclusively' % (c.resolved.split('::')[-1], '/'.join(sorted(excl))))
+            for w in A.field_writes(g):
+                if w[2].startswith(struct + '.') and w[3][1] and any(x.startswith(struct + '.') for x in A.place_fields(w[3])) and \
+                        A.origin_fields(g, w[3][0], gd)[1] in range(1, g.argc + 1):
+                    bad.append('assignment to ' + w[2].split('.')[-1])
+        if bad:
+            rep.violation('R07i', g0, 'snapshot-mutates-slab', g0.loc(),
+                          'snapshot() changes the slab it is imaging (%s): state kept between snapshots is not invalidated by every write '
+                          'path, and the image can contain values that were overwritten' % ', '.join(sorted(set(bad))[:4]))
+        else:
+            rep.holds('R07i', g0, 'snapshot', 'read-only on its slab')
+
+
 def run(ctx, rep):
     cr = ctx.crate('tensor_store')
     r07a(ctx, rep, cr)
@@ -496,3 +549,4 @@ def run(ctx, rep):
     r07f(ctx, rep, cr)
     r07g(ctx, rep, cr)
     r07h(ctx, rep, cr)
+    r07i(ctx, rep, cr)
